@@ -415,7 +415,7 @@ fn two_pow<F: Field>() -> TwoPow<F> {
     let mut i = 2u64;
     let g = loop {
         let c: F = if n == 1 { F::from(i) } else {
-            let mut v = vec![F::BasePrimeField::zero(); n]; v[0] = F::BasePrimeField::from(i); v[1] = F::BasePrimeField::one(); from_coords(v) };
+            let mut v = vec![F::BasePrimeField::zero(); n]; v[0] = F::BasePrimeField::from(i); v[n - 1] = F::BasePrimeField::one(); from_coords(v) };
         if c.legendre().is_qnr() { break c; }
         i += 1;
     };
